@@ -2,9 +2,13 @@ SPECIFICATION Spec
 CONSTANTS
   Lens <- MCLens
   MaxOps <- MCMax
+  Dev <- MCDev
 INVARIANT CursorOnRecord
 INVARIANT PosInside
 INVARIANT NextFalseOnlyAtEnd
 PROPERTY PrevUndoesNext
+PROPERTY PrevAfterFailedNext
 CONSTRAINT EmitConstraint
 CHECK_DEADLOCK FALSE
+INVARIANT EofTruthful
+INVARIANT ScanVisitsAll
